@@ -234,7 +234,7 @@ Definition invalid_b (c : cx) : bool := hdr_eqb (cx_hdr c) HNone || negb (sstate
 Definition needs_login (cl : class) : bool := match cl with ClPublic | ClCred => false | _ => true end.
 (* a login token of a user with a second live login, after deactivation / permission change *)
 Definition stale_second_login (c : cx) : bool :=
-  hdr_eqb (cx_hdr c) HTok2 && (sstate_eqb (cx_st c) SDeact || sstate_eqb (cx_st c) SReperm).
+  hdr_eqb (cx_hdr c) HTok2 && (sstate_eqb (cx_st c) SDeact || permission_changed (cx_st c)).
 
 Definition chk_invalid_partial (g : gate) (p : pgate) : cx -> bool :=
   match class_of g with
